@@ -18,6 +18,7 @@ import (
 	"fmt"
 	"github.com/echovault/sugardb/internal"
 	"github.com/echovault/sugardb/internal/clock"
+	"github.com/echovault/sugardb/internal/verif"
 	"github.com/tidwall/resp"
 	"io"
 	"log"
@@ -154,11 +155,13 @@ func (store *Store) Write(database int, command []byte) error {
 			return fmt.Errorf("log select error: %+v", err)
 		}
 		store.currentDatabase = database
+		verif.Point("aof.log.select", database)
 	}
 
 	if _, err := store.rw.Write(command); err != nil {
 		return fmt.Errorf("log command error: %+v", err)
 	}
+	verif.Point("aof.log.write", len(command))
 
 	if strings.EqualFold(store.strategy, "always") {
 		if err := store.Sync(); err != nil {
@@ -171,7 +174,9 @@ func (store *Store) Write(database int, command []byte) error {
 
 func (store *Store) Sync() error {
 	if store.rw != nil {
-		return store.rw.Sync()
+		err := store.rw.Sync()
+		verif.Point("aof.log.sync")
+		return err
 	}
 	return nil
 }
@@ -238,6 +243,7 @@ func (store *Store) Truncate() error {
 	if err := store.rw.Truncate(0); err != nil {
 		return fmt.Errorf("truncate: truncate error: %+v", err)
 	}
+	verif.Point("aof.log.truncate")
 
 	// Seek to the beginning of the file after truncating.
 	if _, err := store.rw.Seek(0, 0); err != nil {
@@ -252,11 +258,13 @@ func (store *Store) Truncate() error {
 		if err != nil {
 			return fmt.Errorf("truncate: log select error: %+v", err)
 		}
+		verif.Point("aof.log.select", store.currentDatabase)
 	}
 	// Immediately sync the file.
 	if err := store.rw.Sync(); err != nil {
 		return fmt.Errorf("truncate: sync error: %+v", err)
 	}
+	verif.Point("aof.log.sync")
 
 	return nil
 }
